@@ -25,6 +25,21 @@ from .c14 import pure_local
 FIND = finder.FIND
 
 
+def _const_of(body, op, depth=0):
+    """constant behind an operand, looking through plain copies (e.g. the binding of an inlined helper's
+    parameter to the literal the caller passed)"""
+    k = op_const(op)
+    if k is not None or depth > 6:
+        return k
+    p = op_place(op)
+    if p is None or p["p"]:
+        return None
+    d = single_def(body, p["l"])
+    if d and d[1] == "assign" and d[2]["rv"]["k"] == "use":
+        return _const_of(body, d[2]["rv"]["op"], depth + 1)
+    return None
+
+
 def _peel_add(body, op):
     """operand -> (inner operand, k) when it is `x + const k` (checked add), else (op, 0)"""
     p = op_place(op)
@@ -40,7 +55,7 @@ def _peel_add(body, op):
             d = single_def(body, p["l"])
             if d and d[1] == "assign" and d[2]["rv"]["k"] == "bin" and d[2]["rv"]["op"] in ("AddWithOverflow", "Add"):
                 rv = d[2]["rv"]
-                k = op_const(rv["b"])
+                k = _const_of(body, rv["b"])
                 if k is not None and "int" in k:
                     return rv["a"], k["int"]
             return cur, 0
@@ -52,7 +67,7 @@ def _peel_add(body, op):
             cur = rv["op"]
             continue
         if rv["k"] == "bin" and rv["op"] in ("Add", "AddWithOverflow"):
-            k = op_const(rv["b"])
+            k = _const_of(body, rv["b"])
             if k is not None and "int" in k:
                 return rv["a"], k["int"]
         return cur, 0
@@ -405,6 +420,7 @@ def run(ctx):
                 flag = flag_sets[0]
                 # the post-target span: Option<Span> local assigned Some(as_span(current pair)) under `flag && is_none`
                 cand = None
+                cand_calls = []
                 for b2 in sorted(f.reachable_blocks()):
                     for st in f.blocks[b2]["stmts"]:
                         if st["k"] == "assign" and not st["dst"]["p"] and st["rv"]["k"] == "use" and f.local_ty(st["dst"]["l"]).startswith("std::option::Option<pest::Span"):
@@ -427,10 +443,11 @@ def run(ctx):
                                                     guarded = True
                                     if guarded:
                                         cand = st["dst"]["l"]
+                                        cand_calls.append(ch[0].bb)
                 ctx.check(cand is not None, "C13-R4", "post-target-span", "the span of the first pair after the target argument is recorded", f.where())
                 # the StructuredNew anchor uses it when present
                 _, pos = code_positions(_Quiet(), facts, "C13-R4")
-                used = [p for p in pos if p["span"] is not None and _root_is_payload_of(f, p["span"], cand)]
+                used = [p for p in pos if p["span"] is not None and (_root_is_payload_of(f, p["span"], cand) or _value_from_calls(f, p["span"], cand_calls))]
                 ctx.check(bool(used) and all(p["shift"] == 0 and p["side"] == "start" for p in used), "C13-R4", "anchor-after-target",
                           "with a target present the new key-value is anchored at the start of the pair that follows it", used[0]["call"].where() if used else f.where())
                 shifted = [p for p in pos if p["shift"] == 1]
@@ -440,7 +457,7 @@ def run(ctx):
                         es_ok = False
                         for sb in dom.get(p["call"].bb, ()):
                             es = enum_switch(f, sb)
-                            if es and not es[0]["p"] and es[0]["l"] == cand:
+                            if es and not es[0]["p"] and (es[0]["l"] == cand or _same_value(f, es[0]["l"], cand)):
                                 none_arm = es[1].get(0, es[2])
                                 es_ok = none_arm in dom.get(p["call"].bb, ())
                         ctx.check(es_ok, "C13-R4", "paren-anchor-only-without-target", "the `(`+1 anchor is used only when there is no target argument", p["call"].where())
@@ -517,6 +534,24 @@ def _join(f, a, b, avoid=()):
 
 def _after(f, bb):
     return bb
+
+
+def _same_value(f, l1, l2):
+    """l1 holds (a copy of) the value built in l2: every statement that can produce l1's value also produces l2's"""
+    from ..common import value_sites
+    a = {id(d) if isinstance(d, dict) else ("call", d.bb) for (_b, d) in value_sites(f, {"copy": {"l": l1, "p": []}})}
+    b = {id(d) if isinstance(d, dict) else ("call", d.bb) for (_b, d) in value_sites(f, {"copy": {"l": l2, "p": []}})}
+    return bool(a) and a <= b
+
+
+def _value_from_calls(f, span_local, call_bbs):
+    """every statement that can produce the value of span_local is one of the given calls (looking through
+    Option / tuple aggregates, copies and helper returns)"""
+    from ..common import value_sites
+    if not call_bbs:
+        return False
+    leaves = value_sites(f, {"copy": {"l": span_local, "p": []}})
+    return bool(leaves) and all((not isinstance(d, dict)) and d.bb in call_bbs for (_bb, d) in leaves)
 
 
 def _root_is_payload_of(f, span_local, opt_local):
